@@ -379,12 +379,14 @@ func main() {
 		{"b-native-3inst", fleet.Cfg{N: 3, Native: true, Keys: []string{"d/a"}, Vals: []string{"x"}, Silent: -1}, 4 + d},
 		{"b-shadow-3inst", fleet.Cfg{N: 3, Native: false, Keys: []string{"d/a"}, Vals: []string{"x"}, Silent: -1}, 4 + d},
 	}
-	for _, rn := range runs {
+	for ri, rn := range runs {
 		if r.Expired() {
 			r.AddPart(&ev.Part{Name: rn.name, Engine: "E2", Exhaustive: false, Bound: "not started: time budget used up"})
 			continue
 		}
+		restoreBudget := r.SubBudget(r.Remaining() / time.Duration(len(runs)-ri+4)) // +4: the parts after this loop
 		st := statemc.Run(r, rn.name, "x", rn.cfg, rn.depth, 0)
+		restoreBudget()
 		cj, _ := json.Marshal(rn.cfg)
 		r.AddPart(&ev.Part{Name: rn.name, Engine: "E2", States: st.States, Transitions: st.Transitions, Executions: st.Transitions, Distinct: int64(st.Terminals), Exhaustive: st.Exhaustive,
 			Bound:   fmt.Sprintf("BFS depth %d of %d completed (frontier sizes %v); every state followed by a write-free phase of exchange rounds under the loop's upload rule; cfg %s", st.Depth, rn.depth, st.PerDepth, cj),
